@@ -1,5 +1,6 @@
 import ASV.Drv.J
 import ASV.Spec.Orf
+import ASV.Spec.Lookup
 namespace ASV.Drv.C15
 open Lean ASV ASV.Drv ASV.Orf
 
@@ -52,27 +53,43 @@ def gaps (j : Json) : R Json := do
 def partOfJson3 (j : Json) : R (Int × Int × List Gene) := do
   return (← asInt (← idx j 0), ← asInt (← idx j 1), ← listOf geneOfJson (← idx j 2))
 
+def lookupGeneOfJson (j : Json) : R Lookup.Gene := do
+  return { id := ← natF j "id", loc := ← locOfJson (← fld j "loc") }
+
 def allorfs (j : Json) : R Json := do
   let rec_ := (← strF j "rec").toList
   let L : Int := rec_.length
   let minLen ← intF j "minlen"
   let pad ← intF j "pad"
-  let cross ← boolF j "cross"
-  let parts ← listOf partOfJson3 (← fld j "parts")
+  -- the record's CDS features in record order, and the area's location (null = whole record)
+  let genes ← listOf lookupGeneOfJson (← fld j "genes")
+  let area : Option Loc ← match fldD j "area" Json.null with
+    | .null => pure none
+    | v => do pure (some (← locOfJson v))
   let impl ← listOf locOfJson (fldD j "impl" (jArr []))
-  let genes := parts.flatMap (·.2.2)
-  let areas : Option (List (Int × Int)) := orfAreas L cross parts minLen pad
-  let locs := findAllOrfs rec_ cross parts minLen pad
+  let tbl := if intFD j "table" 11 = 1 then (Gen.forwardTable1, Gen.stopCodons1) else (Gen.forwardTable11, Gen.stopCodons11)
+  let rp := recordParts L genes area
+  let areas := orfAreas L rp.1 rp.2 minLen pad
+  let locs := findAllOrfsRec rec_ genes area minLen pad
+  let allGenes := genes.map geneOf
   let inGaps := match areas with
     | none => true
     | some as => impl.all fun l => as.any fun a => locInArea L a l
-  let avoids := impl.all (locAvoids genes pad)
+  let linearGenes := genes.all fun g => !Lookup.crosses g.loc
   return jObj [("areas", match areas with | none => Json.null | some as => jArr (as.map pairJ)),
+               ("cross", toJson rp.1),
+               ("parts", jArr (rp.2.map fun p => jArr [toJson p.1, toJson p.2.1,
+                  jArr (p.2.2.map fun g => jArr [toJson g.start, toJson g.end])])),
                ("model", match locs with
                   | none => Json.null
-                  | some ls => jArr (ls.map fun l => jObj [("loc", locToJson l), ("label", Json.str (orfLabel rec_.length l))])),
-               ("in_gaps", toJson inGaps), ("avoids", toJson avoids),
-               ("scope", toJson ((parts.all fun p => sortedByStartB p.2.2) && decide (0 ≤ pad)))]
+                  | some ls => jArr (ls.map fun l => jObj [("loc", locToJson l), ("label", Json.str (orfLabel rec_.length l)),
+                      ("translation", match featureTranslation tbl.1 tbl.2 (extract complement rec_ l) with
+                        | some t => Json.str (String.ofList t)
+                        | none => Json.null)])),
+               ("in_gaps", toJson inGaps),
+               ("overlap_ok", toJson (impl.all (locOverlapOk (genes.map (·.loc)) pad))),
+               ("avoids", toJson (impl.all (locAvoids allGenes pad))),
+               ("scope", toJson (Lookup.specSorted genes && linearGenes && decide (0 ≤ pad)))]
 
 def trimToJson : Trim → Json
   | .valueError => Json.str "value-error"
